@@ -4,6 +4,7 @@
    under plan_ok, locality of each sub-lexer) are monitored by the re-scan oracle. *)
 From PasfmtVerif Require Import Model.Spacing Proofs.SpacingProofs Model.Generics Proofs.GenericsProofs
   Model.Requirements Proofs.RequirementsProofs.
+From PasfmtVerif Require Import Model.Lexer Proofs.LexerProofs Proofs.LexerSpecProofs Proofs.LexerRelayoutProofs.
 
 (* TokenSpacing changes nothing but the space counters *)
 Theorem C02_spacing_only_counters : forall l, Forall2 same_but_sp (token_spacing l) l.
@@ -53,3 +54,96 @@ Theorem C02_accepted_layout_breaks_after_line_comment :
   nth_error l i = Some (p, bp) -> nth_error l (S i) = Some (ty, brk) ->
   is_sl_comment p = true -> trails_its_line (Some ty) = false -> brk = true.
 Proof. exact plan_break_after_line_comment. Qed.
+
+(* ---- the lexer half of C02 (Proofs/LexerRelayoutProofs.v): a token is determined by its own bytes once the
+   right separator follows (exact side conditions per class, with counterexamples when dropped); re-scanning a
+   re-spaced file yields the same token lengths and the same types up to the Individual/Inline flag, which is a
+   function of the new whitespace; the documented content normalisations keep each token a token of its type ---- *)
+Theorem C02_token_determined_by_own_bytes :
+  forall (st : lstate) (nlb : bool) (b : byte) (t : bytes) (n : nat) 
+    (ty : RawTokenType) (a : bool),
+  lex_token st nlb b t = Some (n, ty, a) ->
+  forall y : bytes,
+  sep_ok b (firstn n t) ty (skipn n t) y ->
+  lex_token st nlb b (firstn n t ++ y) = Some (n, ty, a).
+Proof. exact lex_token_stable. Qed.
+
+Theorem C02_newline_flag_only_comment_kind :
+  forall (st : lstate) (nlb nlb' : bool) (b : byte) (t : bytes) (n : nat) 
+    (ty : RawTokenType) (a : bool),
+  lex_token st nlb b t = Some (n, ty, a) ->
+  lex_token st nlb' b t = Some (n, retype nlb' ty, a).
+Proof. exact lex_token_nlb. Qed.
+
+Theorem C02_asm_flag_from_types :
+  forall (st : lstate) (nlb : bool) (b : byte) (t : bytes) (n : nat) 
+    (ty : RawTokenType) (a : bool),
+  lex_token st nlb b t = Some (n, ty, a) -> a = asm_after (ls_asm st) ty.
+Proof. exact lex_token_asm_flag. Qed.
+
+Theorem C02_rescan_after_respacing :
+  forall (s : bytes) (toks : list (nat * nat * RawTokenType)) (ws' : list bytes),
+  lex s = Some toks ->
+  gaps_ok PNone ws' (segments toks s) ->
+  lex (flatten (respace true ws' (segments toks s))) =
+  Some (map seg_lens (respace true ws' (segments toks s))).
+Proof. exact lex_relayout. Qed.
+
+Theorem C02_respace_same_types :
+  forall (st : lstate) (toks : list (nat * nat * RawTokenType)) (l : bytes),
+  lex_steps st toks l ->
+  forall ws' : list bytes,
+  same_lf ws' (segments toks l) ->
+  length ws' = length toks ->
+  map seg_ty (respace (ls_first st) ws' (segments toks l)) = map seg_ty (segments toks l).
+Proof. exact respace_same_types. Qed.
+
+Theorem C02_rescan_after_substitution :
+  forall (st : lstate) (segs : list seg),
+  relayout st segs -> lex_from st (flatten segs) = Some (map seg_lens segs).
+Proof. exact relayout_lex. Qed.
+
+Theorem C02_lowercase_keeps_token :
+  forall (st : lstate) (nlb : bool) (allowed : bytes -> Prop) (c : bytes) 
+    (ty : RawTokenType) (a : bool),
+  is_alpha (hd 0 c) = true ->
+  lexes_as st nlb allowed c ty a -> lexes_as st nlb allowed (lower c) ty a.
+Proof. exact lexes_as_lower. Qed.
+
+Theorem C02_line_comment_edits_keep_token :
+  forall (st : lstate) (nlb : bool) (body : bytes),
+  forallb not_eol body = true ->
+  lexes_as st nlb eol_sep (47 :: 47 :: body)
+    (RTT_Comment (if nlb then CoK_IndividualLine else CoK_InlineLine)) 
+    (ls_asm st).
+Proof. exact line_comment_lexes_as. Qed.
+
+Theorem C02_directive_uppercase_keeps_token :
+  forall (st : lstate) (nlb : bool) (allowed : bytes -> Prop) (name rest : bytes)
+    (ty : RawTokenType) (a : bool),
+  forallb is_ident_ascii name = true ->
+  match rest with
+  | [] => True
+  | r :: _ => is_ident_ascii r = false
+  end ->
+  (lexes_as st nlb allowed (123 :: 36 :: name ++ rest) ty a ->
+   lexes_as st nlb allowed (123 :: 36 :: upper name ++ rest) ty a) /\
+  (lexes_as st nlb allowed (40 :: 42 :: 36 :: name ++ rest) ty a ->
+   lexes_as st nlb allowed (40 :: 42 :: 36 :: upper name ++ rest) ty a).
+Proof. exact lexes_as_directive_upper. Qed.
+
+Theorem C02_closed_tokens_need_no_separator :
+  forall (st : lstate) (nlb : bool) (b : byte) (q x y : bytes) (ty : RawTokenType) (a : bool),
+  lex_token st nlb b (q ++ x) = Some (length q, ty, a) ->
+  b = 123 \/ b = 40 /\ (exists q1 : list N, q = 42 :: q1) ->
+  closed_on_right b q ty -> lex_token st nlb b (q ++ y) = Some (length q, ty, a).
+Proof. exact lex_token_closed_on_right. Qed.
+
+Theorem C02_any_blank_separator_refuted :
+  exists
+    (st : lstate) (nlb : bool) (b : byte) (t : bytes) (n : nat) (ty : RawTokenType) 
+  (a : bool) (y : bytes),
+    lex_token st nlb b t = Some (n, ty, a) /\
+    sep_start y /\ lex_token st nlb b (firstn n t ++ y) <> Some (n, ty, a).
+Proof. exact lex_token_stable_any_blank_refuted. Qed.
+
